@@ -246,6 +246,45 @@ def cases(modules):
                 want = "raise:" + type(e).__name__
             out.append(("webdav._get_resources_by_hrefs", "mg %s %s" % (enc(script), " ".join(enc(h) for h in hrefs)), want,
                         (script, hrefs)))
+    if "FindKeys" in modules:
+        import collections
+        import random
+        from xandikos.store.index import AutoIndexManager
+        rng = random.Random(13)
+        q = lambda s: urllib.parse.quote(s, safe="")
+        pool = ["C=VCALENDAR", "C=VCALENDAR/C=VEVENT", "P=SUMMARY", "P=DTSTART", "P=DTEND", "P=DURATION", "k;é"]
+        for _ in range(500):
+            avail = rng.sample(pool, rng.randint(0, 4))
+            th = rng.choice([0, 1, 2, 5])
+            desired = {k: rng.randint(0, 6) for k in rng.sample(pool, rng.randint(0, 4))}
+            groups = [[rng.choice(pool) for _ in range(rng.randint(0, 3))] for _ in range(rng.randint(0, 4))]
+
+            class Idx:
+                def __init__(self):
+                    self.reset_with = None
+
+                def available_keys(self):
+                    return list(avail)
+
+                def reset(self, keys):
+                    self.reset_with = keys
+            idx = Idx()
+            mgr = AutoIndexManager(idx, th)
+            for k, n in desired.items():
+                mgr.desired[k] = n
+            try:
+                res = mgr.find_present_keys(groups)
+                all_keys = list(dict.fromkeys([k for g in groups for k in g] + avail))
+                want = "res=%s reset=%s desired=%s" % (
+                    "~" if res is None else ",".join(q(k) for k in res),
+                    "~" if idx.reset_with is None else ",".join(sorted(q(k) for k in idx.reset_with)),
+                    ",".join("%s:%d" % (q(k), mgr.desired[k]) for k in all_keys if k in mgr.desired))
+            except Exception as e:   # noqa: BLE001
+                want = "raise:" + type(e).__name__
+            line = "fpk %s %d %s %s" % (",".join(q(k) for k in avail) or "-", th,
+                                        ",".join("%s:%d" % (q(k), n) for k, n in desired.items()) or "-",
+                                        "|".join(",".join(q(k) for k in g) or "-" for g in groups) or "-")
+            out.append(("index.AutoIndexManager.find_present_keys", line, want, (avail, th, desired, groups)))
     if "Gates" in modules:
         import ast
         import translate
@@ -295,7 +334,16 @@ def cases(modules):
 LISTS = {"icalendar._unescape_text": 1, "git.GitStore.iter_changes": 4, "webdav._get_resources_by_hrefs": 2}
 
 
+def _canon_fpk(text):
+    parts = dict(p.split("=", 1) for p in text.split(" ")) if text.startswith("res=") else None
+    if parts is None:
+        return text
+    return (parts["res"], None if parts["reset"] == "~" else sorted(parts["reset"].split(",")), sorted(x for x in parts["desired"].split(",") if x))
+
+
 def _canon(fn, text):
+    if fn == "index.AutoIndexManager.find_present_keys":
+        return _canon_fpk(text)
     if text == "~":
         return None
     if not text.startswith("="):
@@ -358,7 +406,7 @@ def regen(chk, modules):
     for m in modules:
         text, err = res[m]
         funcs = ", ".join(s["func"] for s in translate.SPECS + translate.SCAN_SPECS if s["module"] == m) or \
-            {"Wellknown": "WellknownRedirector.__call__, WELLKNOWN_DAV_PATHS", "IterChanges": "GitStore.iter_changes", "Multiget": "_get_resources_by_hrefs",
+            {"Wellknown": "WellknownRedirector.__call__, WELLKNOWN_DAV_PATHS", "IterChanges": "GitStore.iter_changes", "Multiget": "_get_resources_by_hrefs", "FindKeys": "AutoIndexManager.find_present_keys",
              "ExcTables": "except tables of set_body, create_member, PutMethod.handle, PostMethod.handle",
              "Gates": "precondition gates of PutMethod.handle, DeleteMethod.handle, _do_get"}.get(m, m)
         tr[funcs] = "ok" if text else "unavailable: " + err
